@@ -116,6 +116,14 @@ def make(kind, vals, M):
     raise KeyError(kind)
 
 
+def _canon(x):
+    if isinstance(x, (SymReal, SymInt, SymBool)):
+        return 'sym:' + str(x.e)
+    if isinstance(x, (list, tuple)):
+        return [_canon(y) for y in x]
+    return repr(x)
+
+
 def ev(obj, M, depth=0):
     if depth > 6:
         raise Inconclusive('evaluation does not bottom out')
@@ -124,13 +132,22 @@ def ev(obj, M, depth=0):
     if isinstance(obj, M['opd'].Operand):
         return ('operand', type(obj).__name__, ev(obj.value, M, depth + 1))
     if isinstance(obj, M['ptt'].Pattern):
-        out = []
-        s = obj.__stream__()
-        try:
-            for _ in range(8):
-                out.append(ev(s.next(), M, depth + 1))
-        except M['stm'].StopStream:
-            pass
+        def vals_of(p):
+            out = []
+            s = p.__stream__()
+            try:
+                for _ in range(8):
+                    out.append(ev(s.next(), M, depth + 1))
+            except M['stm'].StopStream:
+                pass
+            return out
+        out = vals_of(obj)
+        if depth == 0:
+            # the same composed pattern embedded in another pattern must give the same sequence; when it does not,
+            # the embedded sequence is the one compared with the reference
+            emb = vals_of(M['lsp'].Pseq([obj], 1))
+            if _canon(emb) != _canon(out):
+                return ('seq', emb)
         return ('seq', out)
     if isinstance(obj, M['stm'].Stream):
         return ev(obj.next(), M, depth + 1)
@@ -359,6 +376,9 @@ def jobs(tier):
                     out.append(dict(form='method', name=name, n=n, kinds=[k] + others, typ=typ))
                     if n == 2 and (tier == 'thorough' or k in ('func', 'pattern', 'chanlist')):
                         out.append(dict(form='method', name=name, n=2, kinds=[k, k], typ=typ))
+                    if n >= 3 and k in ('pattern', 'func', 'stream'):
+                        # n-ary operators with every operand of the kind (each operand advances per element)
+                        out.append(dict(form='method', name=name, n=n, kinds=[k] * 3 + ['number'] * (n - 3), typ=typ))
     for name, kind, npar, nreq in builtin_table():
         if name in RANDOM:
             continue
@@ -369,6 +389,8 @@ def jobs(tier):
             out.append(dict(form='builtin', name=name, n=npar, kinds=[k] + ['number'] * (npar - 1), typ=typ))
             if kind == 'binop':
                 out.append(dict(form='builtin', name=name, n=2, kinds=['number', k], typ=typ))
+            if npar >= 3 and k == 'pattern':
+                out.append(dict(form='builtin', name=name, n=npar, kinds=[k] * 3 + ['number'] * (npar - 3), typ=typ))
     # python operators with a plain number on the left (reflected dunders through the interpreter)
     for name in ('add', 'sub', 'mul', 'truediv', 'floordiv', 'pow', 'lt', 'le', 'gt', 'ge'):
         for k in kinds:
@@ -390,7 +412,7 @@ def bounds(tier):
             'leaf_types': ['real', 'int'] if tier == 'thorough' else ['real (int for bit operators)'],
             'operators': 'every operator method of AbstractObject and every scbuiltin except random ones',
             'concrete_leaves_for': sorted(CONCRETE_ONLY),
-            'mixed_kinds': 'K op number, number op K, K op K (same kind); other mixtures outside'}
+            'mixed_kinds': 'K op number, number op K, K op K (same kind), n-ary operators with the first three operands patterns / functions / streams; other mixtures outside'}
 
 
 def replay(rec):
